@@ -157,6 +157,9 @@ REPLAYERS["cell:pairs"] = float_pairs_cell
 REPLAYERS["apply:pairs"] = float_pairs_apply
 
 
+SHARDABLE = True
+
+
 def run(chk, only=None):
     import yadism.coefficient_functions as cf
     from yadism.input import compatibility
@@ -168,6 +171,8 @@ def run(chk, only=None):
     if only in (None, "apply"):
         for r in range(0, 5):
             for sub in itertools.combinations([1, 2, -1, -2], r):
+                if not chk.mine(f"apply{sub}"):
+                    continue
                 pattern = list(sub) + [3, -4, 21]
                 with Ctx(chk.seed) as ctx:
                     Z = ctx.var("Z", None, None, wlo=0, whi=100)
@@ -195,16 +200,19 @@ def run(chk, only=None):
             W = {p: ctx.var(f"w{p}", None, None) for p in PIDS}
             F = {p: ctx.var(f"f{p}", None, None) for p in PIDS}
             prs = pairs_apply([1, 2, -1, -2, 3, -4, 21], W, Z, A, F)
-            # perturbation twin: the transposed (wrong) mixture must be refuted
-            wrong = (Z * F[2] + (A - Z) * F[1]) / A
-            chk.expect_sat("perturbed oracle", ctx.facts() + [S.lift(prs[0][1]).t != (S.lift(prs[0][2]) + W[1] * wrong).t],
-                           what="perturbation")
-            chk.expect_sat("domain", ctx.facts())
+            if chk.first:
+                # perturbation twin: the transposed (wrong) mixture must be refuted
+                wrong = (Z * F[2] + (A - Z) * F[1]) / A
+                chk.expect_sat("perturbed oracle", ctx.facts() + [S.lift(prs[0][1]).t != (S.lift(prs[0][2]) + W[1] * wrong).t],
+                               what="perturbation")
+                chk.expect_sat("domain", ctx.facts())
     # 2. through the real Combiner: target run == rotated proton run (kernel lists), symbolic Z, A
     if only in (None, "combiner"):
         allc = cells(chk.tier)
         for cell in allc:
             cname = ":".join(f"{k}={v}" for k, v in cell.items())
+            if not chk.mine(cname):
+                continue
             with Ctx(chk.seed) as ctx, cm.fixed_nf(), cm.generic_drop_empty(), stubs.cf_stubs():
 
                 def body():
@@ -238,7 +246,7 @@ def run(chk, only=None):
                                         lambda lab, cell=cell: f"combiner:{cell['obs']}:{cell['process']}:{lab}")
         chk.section("combiner_cells", n=len(allc))
     # 3. named targets
-    if only in (None, "table"):
+    if only in (None, "table") and chk.first:
         for name in list(TARGETS) + UNKNOWN:
             chk.obligations += 1
             chk.evaluations += 1
